@@ -1,3 +1,536 @@
-//! C12 — not built yet.
+//! C12 — compiled output is itself a valid program with the same meaning.
+//!
+//! (i)   `Exp` / `Model` `to_string()` vs. the Lean port, byte for byte (generated trees);
+//! (ii)  `LinearModel::to_string()` vs. the Lean port, byte for byte;
+//! (iii) directly on the implementation: the rendered text is parsed, type checked and linearized
+//!       again; the exact oracle compares the two linear models canonically, and the second rendering
+//!       must equal the first (fixpoint).
 use crate::case::Case;
-pub fn generate(_seed: u64, _n: usize, _thorough: bool, _corpus: Option<&str>) -> Vec<Case> { vec![] }
+use crate::gen_exp::{self, ExpCfg};
+use crate::rng::Rng;
+use crate::sx;
+use indexmap::IndexMap;
+use rooc::model_transformer::{Constraint, DomainVariable, Exp, Model, Objective};
+use rooc::{BinOp, Comparison, InputSpan, LinearModel, Linearizer, OptimizationType, RoocParser, UnOp, VariableType};
+use std::collections::BTreeMap;
+
+// ------------------------------------------------------------------------------------------------ token tables
+fn exp_nums(e: &Exp, out: &mut Vec<f64>) {
+    match e {
+        Exp::Number(v) => out.push(*v),
+        Exp::Variable(_) => {}
+        Exp::Abs(e) | Exp::Not(e) | Exp::UnOp(_, e) => exp_nums(e, out),
+        Exp::Min(es) | Exp::Max(es) | Exp::And(es) | Exp::Or(es) => for e in es { exp_nums(e, out) },
+        Exp::Xor(a, b) | Exp::Implies(a, b) | Exp::Iff(a, b) | Exp::BinOp(_, a, b) => { exp_nums(a, out); exp_nums(b, out) }
+    }
+}
+fn toks(nums: &[f64]) -> String {
+    let mut t: BTreeMap<u64, String> = BTreeMap::new();
+    for v in nums {
+        t.insert(v.to_bits(), format!("{}", v));
+        t.insert(v.abs().to_bits(), format!("{}", v.abs()));
+    }
+    let mut s = String::from("(toks");
+    for (b, st) in &t { s.push_str(&format!(" (#x{:016x} {})", b, sx::q(st))); }
+    s.push(')');
+    s
+}
+fn domain_nums(d: &IndexMap<String, DomainVariable>, out: &mut Vec<f64>) {
+    for (_, v) in d {
+        if let VariableType::NonNegativeReal(a, b) | VariableType::Real(a, b) = v.get_type() { out.push(*a); out.push(*b); }
+    }
+}
+fn model_toks(m: &Model) -> String {
+    let mut v = vec![];
+    exp_nums(&m.objective().rhs, &mut v);
+    for c in m.constraints() { exp_nums(c.lhs(), &mut v); exp_nums(c.rhs(), &mut v); }
+    domain_nums(m.domain(), &mut v);
+    toks(&v)
+}
+
+// ------------------------------------------------------------------------------------------------ re-compilation
+fn first_line(s: &str) -> String { s.lines().filter(|l| !l.trim().is_empty()).take(2).collect::<Vec<_>>().join(" / ").chars().take(160).collect() }
+
+enum Recompiled { Ok(Model, LinearModel), Rejected(&'static str, String) }
+
+fn recompile(text: &str) -> Recompiled {
+    let t = text.to_string();
+    let r = std::panic::catch_unwind(move || {
+        let p = RoocParser::new(t);
+        let model = match p.parse_and_transform(vec![], &IndexMap::new()) {
+            Ok(m) => m,
+            Err(e) => return Recompiled::Rejected("parse", first_line(&e)),
+        };
+        if let Err(e) = p.type_check(&vec![], &IndexMap::new()) { return Recompiled::Rejected("typecheck", first_line(&e)); }
+        match Linearizer::linearize(model.clone()) {
+            Ok(l) => Recompiled::Ok(model, l),
+            Err(e) => Recompiled::Rejected("linearize", first_line(&format!("{}", e))),
+        }
+    });
+    match r { Ok(x) => x, Err(_) => Recompiled::Rejected("panic", "panic while re-compiling".into()) }
+}
+
+/// is every number of the linear model inside the property's stated range (|v| in [1e-9, 1e9] or 0, finite bounds or infinite)?
+fn lin_in_range(m: &LinearModel) -> bool {
+    let ok = |v: f64| v == 0.0 || (v.is_finite() && v.abs() >= 1e-9 && v.abs() <= 1e9);
+    let okb = |v: f64| v.is_infinite() || ok(v);
+    m.objective().iter().all(|c| ok(*c)) && ok(m.objective_offset())
+        && m.constraints().iter().all(|r| r.coefficients().iter().all(|c| ok(*c)) && ok(r.rhs()))
+        && m.domain().values().all(|d| match d.get_type() {
+            VariableType::NonNegativeReal(a, b) | VariableType::Real(a, b) => okb(*a) && okb(*b),
+            _ => true })
+}
+
+/// (ii) + (iii) for one linear model. `compiled_like` = the model could have come out of the compiler
+/// (every variable used, well-formed domains), so the round trip is part of the property.
+fn lin_case(m: &LinearModel, tags: Vec<String>, compiled_like: bool) -> Case {
+    lin_case2(m, tags, if compiled_like { 2 } else { 0 }).0
+}
+
+/// `profile`: 0 = byte-exactness only, 1 = built through the API in the compiler's output profile (the first
+/// re-compilation may tighten domains), 2 = came out of the compiler. Returns the re-compiled model too.
+fn lin_case2(m: &LinearModel, mut tags: Vec<String>, profile: u8) -> (Case, Option<LinearModel>) {
+    let compiled_like = profile > 0;
+    let mut second = None;
+    let lin = sx::lin_model(m);
+    let mut c = Case::default();
+    c.req = format!("display-lin {} {}", lin, super::c17::tok_table(m));
+    let text = std::panic::catch_unwind(std::panic::AssertUnwindSafe(|| m.to_string()));
+    let text = match text {
+        Ok(t) => t,
+        Err(_) => {
+            c.imp = "(err panic)".into();
+            c.show = format!("LinearModel (Display panics) {}", lin.chars().take(200).collect::<String>());
+            tags.push("display-panics".into());
+            c.tags = tags;
+            return (c, None);
+        }
+    };
+    c.imp = format!("(ok {})", sx::q(&text));
+    c.show = format!("LinearModel: {}", text.replace('\n', " | "));
+    c.nontrivial = !m.constraints().is_empty();
+    // which branches of the printer does the model reach?
+    let coefs: Vec<f64> = m.objective().iter().cloned().chain(m.constraints().iter().flat_map(|r| r.coefficients().iter().cloned())).collect();
+    if coefs.iter().any(|c| c.abs() == 1.0) { tags.push("lin-unit-coefficient".into()); }
+    if coefs.iter().any(|c| *c < 0.0 && *c <= -1e-5) { tags.push("lin-negative-coefficient".into()); }
+    if m.constraints().iter().any(|r| r.coefficients().iter().all(|c| *c == 0.0)) { tags.push("lin-zero-lhs".into()); }
+    if m.objective().iter().all(|c| *c == 0.0) { tags.push("lin-zero-objective".into()); }
+    if m.constraints().iter().any(|r| r.rhs() == 0.0) { tags.push("lin-zero-rhs".into()); }
+    if m.constraints().iter().any(|r| r.rhs() < 0.0) { tags.push("lin-negative-rhs".into()); }
+    if m.constraints().iter().any(|r| r.name().is_empty()) { tags.push("lin-unnamed-row".into()); }
+    if m.constraints().iter().any(|r| !r.name().is_empty()) { tags.push("lin-named-row".into()); }
+    let off = m.objective_offset();
+    tags.push(if off == 0.0 { "lin-offset-zero".into() } else if off <= -1e-5 { "lin-offset-negative".into() } else if off < 0.0 { "lin-offset-tiny-negative".into() } else { "lin-offset-positive".to_string() });
+    if m.variables().iter().any(|v| v.starts_with('$')) { tags.push("lin-aux-name".into()); }
+    if m.variables().iter().any(|v| v.contains('_') && !v.starts_with('$')) { tags.push("lin-indexed-name".into()); }
+    let mut tys: Vec<String> = vec![];
+    for d in m.domain().values() {
+        let t = d.get_type().to_string();
+        tags.push(match d.get_type() {
+            VariableType::Boolean => "lin-dom-boolean".into(),
+            VariableType::IntegerRange(..) => "lin-dom-int".into(),
+            VariableType::NonNegativeReal(a, b) => if *a == 0.0 && *b == f64::INFINITY { "lin-dom-nnreal-default".into() } else if b.is_infinite() { "lin-dom-nnreal-inf".into() } else { "lin-dom-nnreal-tight".to_string() },
+            VariableType::Real(a, b) => if a.is_infinite() && b.is_infinite() { "lin-dom-real-free".into() } else if a.is_infinite() || b.is_infinite() { "lin-dom-real-halfinf".into() } else { "lin-dom-real-tight".to_string() },
+        });
+        if tys.contains(&t) { tags.push("lin-dom-grouped".into()); }
+        tys.push(t);
+    }
+    tags.push(format!("lin-sense-{}", sx::opt_type(m.optimization_type())));
+    let in_range = lin_in_range(m);
+    tags.push(if in_range { "in-stated-range".into() } else { "outside-stated-range".to_string() });
+    let tiny_neg = m.objective().iter().chain(m.constraints().iter().flat_map(|r| r.coefficients().iter())).any(|c| *c < 0.0 && *c > -1e-5);
+    if tiny_neg { tags.push("negative-coefficient-below-1e-5".into()); }
+    if compiled_like {
+        match recompile(&text) {
+            Recompiled::Ok(_, l2) => {
+                tags.push("reparse-accepted".into());
+                let t2 = l2.to_string();
+                if in_range {
+                    c.oracle = format!("{} {} {} {} {}", if profile == 1 { "same-lin-api" } else { "same-lin" }, lin, sx::lin_model(&l2), sx::q(&text), sx::q(&t2));
+                    second = Some(l2);
+                } else {
+                    tags.push("roundtrip-recorded-only".into());
+                }
+            }
+            Recompiled::Rejected(stage, msg) => {
+                tags.push(format!("reparse-rejected-{}", stage));
+                if in_range {
+                    let odd_inf = m.domain().values().any(|d| match d.get_type() {
+                        VariableType::NonNegativeReal(a, b) => a.is_infinite() || *b == f64::NEG_INFINITY,
+                        VariableType::Real(a, b) => *a == f64::INFINITY || *b == f64::NEG_INFINITY,
+                        _ => false });
+                    if matches!(m.optimization_type(), OptimizationType::Satisfy) && stage == "parse" {
+                        c.sig = Some("solve-rendered-with-expression".into());
+                    } else if m.constraints().is_empty() && stage == "parse" {
+                        c.sig = Some("empty-constraint-section-rejected".into());
+                    } else if odd_inf && stage == "parse" {
+                        c.sig = Some("infinite-bound-spelled-inf".into());
+                    }
+                    c.impl_violation = Some(format!("rendering of a compiled linear model is rejected at {}: {}  <=  {}", stage, msg, text.replace('\n', " | ")));
+                } else {
+                    tags.push("roundtrip-recorded-only".into());
+                }
+            }
+        }
+    }
+    tags.sort(); tags.dedup();
+    c.tags = tags;
+    (c, second)
+}
+
+/// an API-built model: first as it is (domains may be tightened by the first compilation), then the
+/// model that compilation produced — a genuinely compiled one — under the full property
+fn api_lin_cases(m: &LinearModel, tags: Vec<String>, cases: &mut Vec<Case>) {
+    let mut t1 = tags.clone(); t1.push("api-built".into());
+    let (c, second) = lin_case2(m, t1, 1);
+    cases.push(c);
+    if let Some(l1) = second {
+        let mut t2 = tags; t2.push("compiled-linear-model".into()); t2.push("compiled-from-api-rendering".into());
+        cases.push(lin_case2(&l1, t2, 2).0);
+    }
+}
+
+/// (i) + (iii) for one compiled source model.
+fn model_case(m: &Model, mut tags: Vec<String>, roundtrip: bool) -> Case {
+    let mut c = Case::default();
+    c.req = format!("display-model {} {}", sx::model(m), model_toks(m));
+    let text = m.to_string();
+    c.imp = format!("(ok {})", sx::q(&text));
+    c.show = format!("Model: {}", text.replace('\n', " | "));
+    c.nontrivial = true;
+    if roundtrip {
+        let first = std::panic::catch_unwind(std::panic::AssertUnwindSafe(|| Linearizer::linearize(m.clone())));
+        if let Ok(Ok(l1)) = first {
+            tags.push("model-compiles".into());
+            match recompile(&text) {
+                Recompiled::Ok(_, l2) => {
+                    tags.push("reparse-accepted".into());
+                    let (t1, t2) = (l1.to_string(), l2.to_string());
+                    c.oracle = format!("same-lin-model {} {} {} {} {}", sx::model(m), sx::lin_model(&l1), sx::lin_model(&l2), sx::q(&t1), sx::q(&t2));
+                }
+                Recompiled::Rejected(stage, msg) => {
+                    tags.push(format!("reparse-rejected-{}", stage));
+                    if matches!(m.objective().objective_type, OptimizationType::Satisfy) && stage == "parse" {
+                        c.sig = Some("solve-rendered-with-expression".into());
+                    }
+                    c.impl_violation = Some(format!("rendering of a compiled model is rejected at {}: {}  <=  {}", stage, msg, text.replace('\n', " | ")));
+                }
+            }
+        } else {
+            tags.push("model-does-not-compile".into());
+        }
+    }
+    tags.sort(); tags.dedup();
+    c.tags = tags;
+    c
+}
+
+fn exp_case(e: &Exp, tag: &str) -> Case {
+    let mut c = Case::default();
+    let mut v = vec![];
+    exp_nums(e, &mut v);
+    c.req = format!("display-exp {} {}", sx::exp(e), toks(&v));
+    let text = e.to_string();
+    c.imp = format!("(ok {})", sx::q(&text));
+    c.show = format!("Exp {:?} -> {}", sx::exp(e).chars().take(200).collect::<String>(), text);
+    c.nontrivial = !e.is_leaf();
+    let mut tags = vec![tag.to_string(), "exp-display".to_string()];
+    // which branches of the printer does the tree reach?
+    fn walk(e: &Exp, parent: Option<BinOp>, tags: &mut Vec<String>) {
+        match e {
+            Exp::BinOp(op, l, r) => {
+                if let Some(p) = parent {
+                    if op.precedence() < p.precedence() { tags.push("paren-lower-precedence".into()); }
+                    else if p == BinOp::Sub { tags.push(if r.is_leaf() { "sub-case-leaf-rhs".into() } else { "sub-case-nonleaf-rhs".to_string() }); }
+                    else if op.precedence() == p.precedence() { tags.push("equal-precedence-no-paren".into()); }
+                }
+                walk(l, Some(*op), tags); walk(r, Some(*op), tags);
+            }
+            Exp::UnOp(_, x) => { tags.push(if x.is_leaf() { "unop-leaf".into() } else { "unop-group".to_string() }); walk(x, None, tags) }
+            Exp::Not(x) => { tags.push(if x.is_leaf() { "not-leaf".into() } else { "not-group".to_string() }); walk(x, None, tags) }
+            Exp::Abs(x) => { tags.push("abs".into()); walk(x, None, tags) }
+            Exp::Min(es) | Exp::Max(es) => { tags.push("minmax".into()); for x in es { walk(x, None, tags) } }
+            Exp::And(es) | Exp::Or(es) => { tags.push(format!("nary-logic-{}", es.len().min(3))); for x in es { walk(x, None, tags) } }
+            Exp::Xor(a, b) | Exp::Implies(a, b) | Exp::Iff(a, b) => { tags.push("binary-logic-node".into()); walk(a, None, tags); walk(b, None, tags) }
+            Exp::Number(v) => { if *v < 0.0 { tags.push("negative-literal".into()) } }
+            Exp::Variable(_) => {}
+        }
+    }
+    walk(e, None, &mut tags);
+    tags.sort(); tags.dedup();
+    c.tags = tags;
+    c
+}
+
+// ------------------------------------------------------------------------------------------------ source generator
+#[derive(Clone)]
+enum S { Num(f64), Var(String), Bin(&'static str, Box<S>, Box<S>), Neg(Box<S>), Abs(Box<S>), Min(Vec<S>), Max(Vec<S>), Not(Box<S>) }
+
+fn src(s: &S) -> String {
+    match s {
+        S::Num(v) => format!("{}", v),
+        S::Var(n) => n.clone(),
+        S::Bin(op, a, b) => format!("({} {} {})", src(a), op, src(b)),
+        S::Neg(a) => format!("(-{})", src(a)),
+        S::Not(a) => format!("(not {})", src(a)),
+        S::Abs(a) => format!("abs{{ {} }}", src(a)),
+        S::Min(xs) => format!("min{{ {} }}", xs.iter().map(src).collect::<Vec<_>>().join(", ")),
+        S::Max(xs) => format!("max{{ {} }}", xs.iter().map(src).collect::<Vec<_>>().join(", ")),
+    }
+}
+
+const MAGS: [f64; 16] = [1.0, 2.0, 3.0, 0.5, 0.1, 0.25, 7.0, 10.0, 1e-9, 1e-7, 1e-6, 0.00001, 0.00002, 1000.0, 123456.5, 1e9];
+const REALS: [&str; 5] = ["x", "y", "z", "x_1", "x_a"];
+const BOOLS: [&str; 3] = ["b", "d", "e"];
+
+fn num(r: &mut Rng, sweep: bool) -> S {
+    let v = if sweep { *r.pick(&MAGS) } else { *r.pick(&MAGS[..8]) };
+    if r.chance(1, 4) { S::Neg(Box::new(S::Num(v))) } else { S::Num(v) }
+}
+/// a constant sub-expression (never zero)
+fn numexp(r: &mut Rng, depth: u32) -> S {
+    if depth == 0 || r.chance(1, 2) { return S::Num(*r.pick(&[2.0, 3.0, 4.0, 0.5, 5.0])); }
+    let op = *r.pick(&["*", "/", "+"]);
+    S::Bin(op, Box::new(numexp(r, depth - 1)), Box::new(numexp(r, depth - 1)))
+}
+fn lin(r: &mut Rng, depth: u32, sweep: bool, rich: bool) -> S {
+    if depth == 0 || r.chance(1, 6) {
+        return match r.below(4) {
+            0 => S::Var(r.pick(&REALS).to_string()),
+            1 => num(r, sweep),
+            _ => S::Bin("*", Box::new(num(r, sweep)), Box::new(S::Var(r.pick(&REALS).to_string()))),
+        };
+    }
+    let d = depth - 1;
+    match r.below(if rich { 14 } else { 11 }) {
+        0 | 1 | 2 => S::Bin("+", Box::new(lin(r, d, sweep, rich)), Box::new(lin(r, d, sweep, rich))),
+        3 | 4 | 5 => S::Bin("-", Box::new(lin(r, d, sweep, rich)), Box::new(lin(r, d, sweep, rich))),
+        6 => S::Neg(Box::new(lin(r, d, sweep, rich))),
+        7 => S::Bin("*", Box::new(lin(r, d, sweep, rich)), Box::new(numexp(r, 1))),
+        8 => S::Bin("*", Box::new(numexp(r, 1)), Box::new(lin(r, d, sweep, rich))),
+        9 | 10 => S::Bin("/", Box::new(lin(r, d, sweep, rich)), Box::new(numexp(r, 2))),
+        11 => S::Abs(Box::new(lin(r, d, sweep, false))),
+        12 => S::Min((0..1 + r.below(3)).map(|_| lin(r, d, sweep, false)).collect()),
+        _ => S::Max((0..1 + r.below(3)).map(|_| lin(r, d, sweep, false)).collect()),
+    }
+}
+fn logic(r: &mut Rng, depth: u32) -> S {
+    if depth == 0 || r.chance(1, 4) {
+        let v = S::Var(r.pick(&BOOLS).to_string());
+        return if r.chance(1, 4) { S::Not(Box::new(v)) } else { v };
+    }
+    let op = *r.pick(&["and", "or", "xor", "implies", "iff", "and", "or"]);
+    S::Bin(op, Box::new(logic(r, depth - 1)), Box::new(logic(r, depth - 1)))
+}
+
+fn source_program(r: &mut Rng, sweep: bool) -> String {
+    let rich = r.chance(1, 3);
+    let mut s = String::new();
+    match r.below(7) {
+        0 => s.push_str("solve\n"),
+        1 | 2 | 3 => s.push_str(&format!("min {}\n", src(&lin(r, 2, sweep, rich)))),
+        _ => s.push_str(&format!("max {}\n", src(&lin(r, 2, sweep, rich)))),
+    }
+    s.push_str("s.t.\n");
+    let names = ["cap", "lower", "c1", "c2", "r_1", "k"];
+    let mut used = vec![];
+    for i in 0..1 + r.below(4) {
+        let name = if r.chance(1, 2) { let n = names[(i + r.below(3)) % names.len()]; if used.contains(&n) { String::new() } else { used.push(n); format!("{}: ", n) } } else { String::new() };
+        if r.chance(1, 6) {
+            s.push_str(&format!("    {}{}\n", name, src(&logic(r, 2))));
+        } else {
+            let cmp = *r.pick(&["<=", ">=", "=", "<=", ">="]);
+            s.push_str(&format!("    {}{} {} {}\n", name, src(&lin(r, 3, sweep, rich)), cmp, src(&lin(r, 1, sweep, false))));
+        }
+    }
+    s.push_str("define\n");
+    let dom = *r.pick(&["Real(-10, 10)", "NonNegativeReal(0, 8)", "Real(-1000000000, 1000000000)", "IntegerRange(-3, 7)", "Real(-2.5, 0.75)"]);
+    s.push_str(&format!("    x, y, z as {}\n    x_1, x_a as Real(-4, 6)\n    b, d, e as Boolean\n", dom));
+    s
+}
+
+fn compile_source(text: &str) -> Option<Model> {
+    let t = text.to_string();
+    std::panic::catch_unwind(move || RoocParser::new(t).parse_and_transform(vec![], &IndexMap::new()).ok()).ok().flatten()
+}
+
+// ------------------------------------------------------------------------------------------------ linear-model generator
+const LIN_NAMES: [&str; 10] = ["x", "y", "z", "x_1", "x_a_b", "$abs_0", "$logic_witness_0", "$max_1_select_0", "w2", "$min_3"];
+const COEFFS: [f64; 30] = [1.0, -1.0, 2.0, -2.0, 0.5, -0.5, 3.0, 10.0, 0.1, -0.1, 1e-9, -1e-9, 1e-8, -1e-7, 1e-6, -1e-6, 9.9e-6, -9.9e-6,
+    1e-5, -1e-5, 1.0001e-5, -1.0001e-5, 2e-5, -2e-5, 1e9, -1e9, 123456.789, -0.333, 1000.0, -999999999.9];
+
+fn lin_var_type(r: &mut Rng) -> VariableType {
+    match r.below(9) {
+        0 | 1 => VariableType::Boolean,
+        2 => VariableType::IntegerRange(r.range(-9, 0) as i32, r.range(1, 30) as i32),
+        3 => VariableType::Real(f64::NEG_INFINITY, f64::INFINITY),
+        4 => VariableType::Real(-(r.range(1, 50) as f64) / 4.0, r.range(1, 50) as f64 / 4.0),
+        5 => if r.chance(1, 2) { VariableType::Real(f64::NEG_INFINITY, 7.5) } else { VariableType::Real(-2.0, f64::INFINITY) },
+        6 => VariableType::NonNegativeReal(0.0, f64::INFINITY),
+        7 => VariableType::NonNegativeReal(0.0, r.range(1, 40) as f64 / 2.0),
+        _ => VariableType::NonNegativeReal(0.25, 1e9),
+    }
+}
+
+fn random_lin(r: &mut Rng, sweep: bool) -> LinearModel {
+    let nv = 1 + r.below(4);
+    let mut m = LinearModel::new();
+    let mut pool: Vec<&str> = LIN_NAMES.to_vec();
+    for _ in 0..nv { let i = r.below(pool.len()); m.add_variable(pool.remove(i), lin_var_type(r)); }
+    let coef = |r: &mut Rng| if sweep { *r.pick(&COEFFS) } else { *r.pick(&COEFFS[..10]) };
+    let nr = 1 + r.below(4);
+    let names = ["cap", "a", "c2", "row_1", "$r"];
+    for i in 0..nr {
+        let mut cs: Vec<f64> = (0..nv).map(|_| if r.chance(1, 4) { 0.0 } else { coef(r) }).collect();
+        if i == 0 { for c in cs.iter_mut() { if *c == 0.0 { *c = 1.0; } } }       // every variable is used somewhere
+        let cmp = *r.pick(&[Comparison::LessOrEqual, Comparison::GreaterOrEqual, Comparison::Equal]);
+        let rhs = if r.chance(1, 3) { 0.0 } else { coef(r) };
+        if r.chance(1, 2) { m.add_constraint(cs, cmp, rhs) } else { m.add_named_constraint(cs, cmp, rhs, names[i % names.len()]) }
+    }
+    let obj: Vec<f64> = (0..nv).map(|_| if r.chance(1, 3) { 0.0 } else { coef(r) }).collect();
+    let ot = match r.below(7) { 0 => OptimizationType::Satisfy, 1 | 2 | 3 => OptimizationType::Min, _ => OptimizationType::Max };
+    let sat = matches!(ot, OptimizationType::Satisfy);
+    m.set_objective(if sat { vec![] } else { obj }, ot);
+    let (o, t, _, c, v, d) = m.into_parts();
+    // compiled `solve` models carry the offset 1 (the objective `true`)
+    let off = if sat { 1.0 } else if r.chance(1, 2) { 0.0 } else { coef(r) };
+    LinearModel::new_from_parts(o, t, off, c, v, d)
+}
+
+fn seeded_sources() -> Vec<(&'static str, &'static str)> {
+    vec![
+        ("seed-div-right-nested", "min x / (2 * 3)\ns.t.\n    x >= 6\ndefine\n    x as Real(-10, 10)"),
+        ("seed-sub-right-nested", "min x\ns.t.\n    x - (3 - 1) >= 0\ndefine\n    x as Real(-10, 10)"),
+        ("seed-sub-right-add", "min x\ns.t.\n    x - (y + 1) >= 0\ndefine\n    x, y as Real(-10, 10)"),
+        ("seed-tiny-negative-coefficient", "min x\ns.t.\n    y - 0.000001 * x <= 3\n    x >= 1\ndefine\n    x, y as Real(-10, 10)"),
+        ("seed-solve", "solve\ns.t.\n    x + y >= 1\ndefine\n    x, y as Real(-5, 10)"),
+        ("seed-repo-test-1", "max abs { x - y } + min { x, y }\ns.t.\n    cap: x + y <= 10\ndefine\n    x, y as NonNegativeReal(0, 8)"),
+        ("seed-repo-test-2", "min max { x, y }\ns.t.\n    lower: x + y >= 4\ndefine\n    x, y as NonNegativeReal(0, 9)"),
+        ("seed-logic", "max x\ns.t.\n    a: b or (d and not b)\n    x <= 3 * b + 1\ndefine\n    x as Real(-5, 10)\n    b, d as Boolean"),
+        ("seed-neg-literal", "min -3 * x + (-2) * -y\ns.t.\n    x - -y >= -1\ndefine\n    x, y as Real(-5, 10)"),
+    ]
+}
+
+fn from_source(text: &str, tag: &str, cases: &mut Vec<Case>) {
+    match compile_source(text) {
+        None => { let mut c = Case::default(); c.show = format!("source (rejected by the front end): {}", text.replace('\n', " | ")); c.tags = vec![tag.into(), "src-not-compilable".into()]; cases.push(c); }
+        Some(m) => {
+            cases.push(model_case(&m, vec![tag.into(), "compiled-model".into()], true));
+            if let Ok(Ok(l)) = std::panic::catch_unwind(std::panic::AssertUnwindSafe(|| Linearizer::linearize(m.clone()))) {
+                cases.push(lin_case(&l, vec![tag.into(), "compiled-linear-model".into()], true));
+            }
+        }
+    }
+}
+
+pub fn generate(seed: u64, n: usize, thorough: bool, corpus: Option<&str>) -> Vec<Case> {
+    let mut r = Rng::new(seed);
+    let mut cases = vec![];
+    // --- seeded known shapes, through the real front end
+    for (tag, s) in seeded_sources() { from_source(s, tag, &mut cases); }
+    if let Some(dir) = corpus {
+        if let Ok(rd) = std::fs::read_dir(dir) {
+            let mut files: Vec<_> = rd.filter_map(|e| e.ok()).map(|e| e.path()).filter(|p| p.extension().map(|x| x == "rooc").unwrap_or(false)).collect();
+            files.sort();
+            for f in files { if let Ok(s) = std::fs::read_to_string(&f) { from_source(&s, "corpus", &mut cases); } }
+        }
+    }
+    // recorded only: 1e22 prints as an integer literal beyond i64 (outside the stated 1e9 range)
+    {
+        let mut m = LinearModel::new();
+        m.add_variable("x", VariableType::Real(-5.0, 10.0));
+        m.add_constraint(vec![1e22], Comparison::LessOrEqual, 1.0);
+        m.set_objective(vec![1.0], OptimizationType::Min);
+        cases.push(lin_case(&m, vec!["seed-1e22-record-only".into()], true));
+    }
+    // `Display` indexes `self.variables[i]`: a non-zero coefficient beyond the variable list panics (only
+    // reachable through `new_from_parts`); zero coefficients beyond it do not
+    for cs in [vec![1.0, 0.0, 3.0], vec![1.0, 0.0, 0.0]] {
+        let mut d = IndexMap::new();
+        d.insert("x".to_string(), DomainVariable::new(VariableType::Boolean, InputSpan::default()));
+        let m = LinearModel::new_from_parts(vec![1.0], OptimizationType::Min, 0.0,
+            vec![rooc::LinearConstraint::new(cs, Comparison::LessOrEqual, 1.0)], vec!["x".into()], d);
+        cases.push(lin_case(&m, vec!["seed-coefficients-beyond-variables".into()], false));
+    }
+    // --- (i) Exp Display: exhaustive small trees + random trees
+    let leaves = vec![Exp::Number(2.0), Exp::Number(-1.5), Exp::Variable("x".into()), Exp::Variable("$abs_0".into())];
+    for e in gen_exp::enumerate(if thorough { 4 } else { 3 }, &leaves) { cases.push(exp_case(&e, "exhaustive")); }
+    // every pair of nested binary operators, both sides (the parenthesisation table)
+    for p in gen_exp::BINOPS { for c in gen_exp::BINOPS {
+        let x = || Box::new(Exp::Variable("x".into()));
+        let inner = |l: Box<Exp>, r: Box<Exp>| Box::new(Exp::BinOp(c, l, r));
+        cases.push(exp_case(&Exp::BinOp(p, inner(x(), x()), x()), "op-pairs"));
+        cases.push(exp_case(&Exp::BinOp(p, x(), inner(x(), x())), "op-pairs"));
+        cases.push(exp_case(&Exp::BinOp(p, x(), inner(x(), inner(x(), x()))), "op-pairs"));
+        cases.push(exp_case(&Exp::BinOp(p, x(), inner(x(), Box::new(Exp::UnOp(UnOp::Neg, x())))), "op-pairs"));
+    } }
+    let cfgs = [
+        ExpCfg { vars: vec!["x".into(), "y_1".into(), "$max_0".into()], logic: true, minmax: true, special: false },
+        ExpCfg { vars: vec!["x".into(), "y".into()], logic: false, minmax: false, special: false },
+        ExpCfg { vars: vec!["x".into()], logic: true, minmax: true, special: true },
+    ];
+    for i in 0..n {
+        let cfg = &cfgs[i % cfgs.len()];
+        let depth = 2 + r.below(4) as u32;
+        let e = gen_exp::exp(&mut r, cfg, depth);
+        cases.push(exp_case(&e, ["random-mixed", "random-arith", "random-special"][i % 3]));
+    }
+    // --- (i) Model Display on generated trees (not necessarily compilable)
+    for i in 0..n / 4 {
+        let cfg = &cfgs[i % 2];
+        let obj = gen_exp::exp(&mut r, cfg, 2);
+        let mut cons = vec![];
+        for k in 0..r.below(4) {
+            let name = if r.chance(1, 2) { format!("c{}", k) } else { String::new() };
+            if r.chance(1, 4) { cons.push(Constraint::new_logic_assertion(gen_exp::exp(&mut r, &cfgs[0], 2), name)); }
+            else {
+                let cmp = *r.pick(&[Comparison::LessOrEqual, Comparison::GreaterOrEqual, Comparison::Equal, Comparison::Less, Comparison::Greater]);
+                cons.push(Constraint::new(gen_exp::exp(&mut r, cfg, 3), cmp, gen_exp::exp(&mut r, cfg, 1), name));
+            }
+        }
+        let mut dom = IndexMap::new();
+        for v in ["x", "y", "y_1", "$max_0", "q"].iter().take(r.below(6)) {
+            dom.insert(v.to_string(), DomainVariable::new(lin_var_type(&mut r), InputSpan::default()));
+        }
+        let ot = r.pick(&[OptimizationType::Min, OptimizationType::Max, OptimizationType::Satisfy]).clone();
+        let m = Model::new(Objective::new(ot, obj), cons, dom);
+        cases.push(model_case(&m, vec!["random-model-display".into()], false));
+    }
+    // --- (ii)+(iii) LinearModel Display: API-built, compiled-like
+    for i in 0..n / 2 {
+        let m = random_lin(&mut r, i % 2 == 0);
+        api_lin_cases(&m, vec![if i % 2 == 0 { "random-lin-sweep".into() } else { "random-lin-plain".to_string() }], &mut cases);
+    }
+    // coefficient sweep, one coefficient at a time, both signs, 1e-9 … 1e9 and the 1e-5 boundary
+    let mut sweep: Vec<f64> = vec![];
+    for e in -9..=9 { sweep.push(10f64.powi(e)); sweep.push(3.0 * 10f64.powi(e)); }
+    for d in [1e-10, 1e-9, 2e-9, 1e-6, 1e-5, 2e-5] { sweep.push(1e-5 + d); sweep.push((1e-5f64 - d).abs()); }
+    for v in sweep {
+        for s in [1.0, -1.0] {
+            let c = s * v;
+            if c.abs() > 1e9 || c.abs() < 1e-9 { continue; }
+            let mut m = LinearModel::new();
+            m.add_variable("x", VariableType::Real(-5.0, 10.0));
+            m.add_variable("$abs_0", VariableType::NonNegativeReal(0.0, 4.0));
+            m.add_named_constraint(vec![c, 1.0], Comparison::LessOrEqual, 3.0, "r");
+            m.add_constraint(vec![1.0, c], Comparison::GreaterOrEqual, c);
+            m.set_objective(vec![1.0, c], OptimizationType::Min);
+            let (o, t, _, cs, vs, d) = m.into_parts();
+            api_lin_cases(&LinearModel::new_from_parts(o, t, c, cs, vs, d), vec!["coefficient-sweep".into()], &mut cases);
+        }
+    }
+    // outside the compiled profile: byte-exactness only (non-finite numbers, -0, unused variables, panicking index)
+    for _ in 0..n / 10 {
+        let mut m = random_lin(&mut r, true);
+        let (mut o, t, off, cs, vs, d) = { let x = std::mem::take(&mut m); x.into_parts() };
+        if !o.is_empty() && r.chance(1, 2) { o[0] = *r.pick(&[f64::NAN, f64::INFINITY, -0.0, 1e22, 5e-324]); }
+        let off = if r.chance(1, 2) { *r.pick(&[-0.0, -1e-6, -0.5, f64::NEG_INFINITY]) } else { off };
+        cases.push(lin_case(&LinearModel::new_from_parts(o, t, off, cs, vs, d), vec!["random-lin-odd".into()], false));
+    }
+    // --- (iii) compiled models from generated sources
+    for i in 0..n / 2 {
+        let s = source_program(&mut r, i % 2 == 0);
+        from_source(&s, if i % 2 == 0 { "generated-source-sweep" } else { "generated-source" }, &mut cases);
+    }
+    cases
+}
